@@ -65,6 +65,10 @@ struct NodeRec<Op> {
     op: Option<Op>,
 }
 
+pub fn rss_gb() -> f64 {
+    std::fs::read_to_string("/proc/self/statm").ok().and_then(|s| s.split_whitespace().nth(1).and_then(|x| x.parse::<f64>().ok())).map(|pages| pages * 4096.0 / 1e9).unwrap_or(0.0)
+}
+
 fn path_of<Op: Clone>(recs: &[NodeRec<Op>], mut id: u32) -> (u32, Vec<Op>) {
     let mut ops = vec![];
     loop {
@@ -118,10 +122,10 @@ pub fn explore<M: Machine>(m: &M, lim: &Limits, acc: &mut Acc) {
             depth_bound_hit = true;
             break;
         }
-        if t0.elapsed() > lim.wall || recs.len() > lim.max_states {
+        if t0.elapsed() > lim.wall || recs.len() > lim.max_states || rss_gb() > 20.0 {
             exhaustive = false;
             acc.caps_hit.push(format!(
-                "{}: stopped at depth {} with {} states, frontier {} unexpanded (wall {:?} / max_states {})",
+                "{}: stopped at depth {} with {} states, frontier {} unexpanded (wall {:?} / max_states {} / resident set 20 GB)",
                 name,
                 depth,
                 recs.len(),
@@ -148,7 +152,7 @@ pub fn explore<M: Machine>(m: &M, lim: &Limits, acc: &mut Acc) {
                         let mut tr = 0u64;
                         for (k, (id, s)) in ch.iter().enumerate() {
                             // wall cap inside a level: stop expanding (the level is then reported as incomplete)
-                            if k % 64 == 0 && t0.elapsed() > lim.wall + lim.wall / 2 {
+                            if k % 64 == 0 && (t0.elapsed() > lim.wall + lim.wall / 2 || (k % 4096 == 0 && rss_gb() > 28.0)) {
                                 aborted.store(true, std::sync::atomic::Ordering::Relaxed);
                                 break;
                             }
